@@ -67,10 +67,13 @@ Fixpoint tr_pat (P : program) (p : pattern) {struct p} : EP.pattern :=
     | PURange lo hi => EP.PRange false (Z.of_N lo) (Z.of_N hi)
     | PSRange lo hi => EP.PRange true lo hi
     | PTup ps => EP.PTuple (map (tr_pat P) ps)
-    | PStruct name rest fields =>
+    | PStruct name _ fields =>
+        (* the `..` flag: neither Sem.pmatch nor the matching of Exhaust/Pat.v looks at it, and the
+           exporter prints 0 for a pattern with `..` (the checker has normalised it away); a
+           struct pattern that names only some fields is `S { named fields, .. }` *)
         EP.PStruct name
           ((fix go (fs : list (N * pattern)) : list (N * EP.pattern) :=
-              match fs with [] => [] | (f, fp) :: r => (f, tr_pat P fp) :: go r end) fields) rest
+              match fs with [] => [] | (f, fp) :: r => (f, tr_pat P fp) :: go r end) fields) true
     | PEnumUnit en v =>
         (* a unit pattern compares the tag only: on a variant with payload it is `V(_, .., _)` *)
         match assocN en (p_enums P) with
@@ -93,7 +96,7 @@ Fixpoint tr_fpats (P : program) (fs : list (N * pattern)) : list (N * EP.pattern
   match fs with [] => [] | (f, fp) :: r => (f, tr_pat P fp) :: tr_fpats P r end.
 
 Lemma tr_pat_struct P name rest fields m t :
-  tr_pat P (Pat (PStruct name rest fields) m t) = EP.PStruct name (tr_fpats P fields) rest.
+  tr_pat P (Pat (PStruct name rest fields) m t) = EP.PStruct name (tr_fpats P fields) true.
 Proof.
   cbn [tr_pat]. f_equal. induction fields as [|[f fp] r IH]; [reflexivity|]. cbn [tr_fpats]. now rewrite <- IH.
 Qed.
